@@ -129,6 +129,11 @@ EvalE(P, e, env, st) ==
             LET b == IF e.via = "ptr" THEN st.cells[env[e.s]].ptr ELSE SBase(e.s, env)
                 v == st.cells[b] * 3 + st.cells[b + 1]
             IN [v |-> v, st |-> Chk(st, v)]
+      [] e.k = "utag" ->      \* u.tag(d) / u.ptag(d) : methods whose receiver is UNNAMED (func (T) tag, func (*T) ptag):
+                              \* the receiver is evaluated and dropped, the result depends on the argument alone
+            LET a == EvalE(P, e.e, env, st) IN
+            IF ~Ok(a.st) THEN a
+            ELSE LET v == IF e.m = "tag" THEN a.v * 2 + 1 ELSE a.v + 7 IN [v |-> v, st |-> Chk(a.st, v)]
       [] e.k = "bvar" -> [v |-> st.cells[env[e.s]], st |-> st]
       [] e.k = "ucmp" ->      \* u == v  /  u != v  on struct values
             LET a == SBase(e.s, env)
